@@ -52,6 +52,7 @@ TEq == /\ IsEv("eq") /\ Eq(Ev.other)
 TCall == /\ IsEv("call") /\ Ev.who = "orig" /\ Call(Ev.f, Ev.t, SeqToSet(Ev.fill))
          /\ \A a \in Args : ObsOK(Ev.obs[a], last'.kind, last'.vals[a])
 TRetune == IsEv("retune") /\ Ev.who = "orig" /\ Retune(Ev.c)
+TRetuneS == IsEv("retune_s") /\ RetuneS(Ev.who, Ev.s)
 TDeliver == /\ IsEv("deliver") /\ Deliver(Ev.f, Ev.t, Ev.a, Ev.b, SeqToSet(Ev.fill))
             /\ ObsOK(Ev.obs, last'.kind, last'.vals)
 TCallCopy == /\ IsEv("call") /\ Ev.who = "copy" /\ CallCopy(Ev.f, Ev.t, SeqToSet(Ev.fill))
@@ -70,7 +71,7 @@ TSolve == /\ IsEv("solve") /\ Solve
           /\ Ev.ok = last'.ok
           /\ Ev.ok => Ev.td = last'.td
 
-TNext == TBuild \/ TEq \/ TCall \/ TRetune \/ TDeliver \/ TCallCopy \/ TClear \/ TClearCopy \/ TPickle \/ TUnpickle \/ TSolve
+TNext == TBuild \/ TEq \/ TCall \/ TRetune \/ TRetuneS \/ TDeliver \/ TCallCopy \/ TClear \/ TClearCopy \/ TPickle \/ TUnpickle \/ TSolve
 TSpec == TInit /\ [][TNext]_tvars
 
 Accepted == (l = Len(T.ev) + 1) => PrintT(<<"ACCEPT", tid>>)
